@@ -157,16 +157,32 @@ def replay(data):
     return (data.get("truth") is not None and i != data["truth"]), i
 
 
-ALPHABET = list("0123456789 =NSEBTA\"[]{}xé\t\n") + ["٣", "７", "\xa0", " ", "lyric ", "section ", " = ", " N ", " S 2 ", " E "]
+ALPHABET = list("0123456789 =NSEBTA\"[]{}xé\t\n+-_.") + ["٣", "７", "\xa0", " ", "lyric ", "section ", " = ", " N ", " S 2 ", " E ", "\u200b", "\u200d", "\ufeff", "}", "0x", "e3"]
 
 
 def random_string(rng: random.Random) -> str:
     return "".join(rng.choice(ALPHABET) for _ in range(rng.randint(0, 14)))
 
 
+def respell_number(rng: random.Random, line: str) -> str:
+    """one number of the line written the way other number parsers accept it (`int()`, `float()`, other languages)"""
+    import re
+    nums = list(re.finditer(r"\d+", line))
+    if not nums:
+        return line + "0"
+    m = rng.choice(nums)
+    n = m.group()
+    alt = rng.choice(["+" + n, "-" + n, n + ".0", n + "_0", n[0] + "_" + n[1:] if len(n) > 1 else "0_" + n, " " + n, n + " ", "0x" + n, n + "e0", n + "L",
+                      "".join(chr(0x0660 + int(c)) for c in n), "".join(chr(0xFF10 + int(c)) for c in n), "0" + n, "00" + n, n + "\u200b", "\ufeff" + n,
+                      n + ",0", "(" + n + ")", "'" + n + "'", n.replace("0", "O", 1) if "0" in n else n + "O"])
+    return line[:m.start()] + alt + line[m.end():]
+
+
 def mutate(rng: random.Random, line: str) -> str:
     if not line:
         return rng.choice(ALPHABET)
+    if rng.random() < 0.2:
+        return respell_number(rng, line)
     k = rng.randrange(len(line))
     op = rng.randrange(4)
     if op == 0:
